@@ -61,6 +61,8 @@ def plan(tier, seed):
         specs.append({"name": f"rand{i}", "kind": "random", "index": i, "cases": per,
                       "budget_s": 60 if tier == "quick" else 420})
     specs.append({"name": "ctor-sweep", "kind": "ctor_sweep"})
+    if tier == "thorough":
+        specs.append({"name": "repo-tests", "kind": "repo_tests", "primitive_monitors": False})
     return specs
 
 
@@ -218,6 +220,11 @@ def run_shard(spec, acc, ctx):
     import toolkit.bits_utils as bu
     mon = Mon(acc)
     kind = spec["kind"]
+    if kind == "repo_tests":
+        from vlib import repotests
+        repotests.run(acc, ctx, ["test/test_bits.py", "test/test_fpe.py", "test/test_sse_schemes/test_CGKO06_SSE2.py"],
+                      ["insitu:bitset"])
+        return
     if kind == "exhaustive":
         na = spec["len_a"]
         for va in range(1 << na) if na else [0]:
@@ -321,6 +328,7 @@ def finish(m, tier, seed):
         "refusals_checked": {k[7:]: v for k, v in c.items() if k.startswith("refuse.")},
         "lengths_covered": [min(lens), max(lens), len(lens)] if lens else [],
         "insitu_contract_evaluations": {k: v for k, v in c.items() if k.startswith("insitu.")},
+        "repository_tests_under_monitors": {k: v for k, v in c.items() if k.startswith("repo_tests.")},
     }
     return {"coverage": cov, "inconclusive": inconclusive,
             "assumptions": ["reference model is an MSB-first list of bools written independently in props/c18.py",
